@@ -164,6 +164,24 @@ Proof.
   rewrite <- (index_recs_length sz 0 tvs). apply filter_len_le.
 Qed.
 
+(* invalid entries: dropped when they would be sent = absent from the file as far as the output
+   is concerned *)
+Lemma filter_map_comm {A B} (f : B -> bool) (g : A -> B) l :
+  filter f (map g l) = map g (filter (fun x => f (g x)) l).
+Proof. induction l as [|x r IH]; simpl; [reflexivity|]. destruct (f (g x)); simpl; rewrite IH; reflexivity. Qed.
+
+Theorem records_sent_K2_correct bad lo hi sz tvs :
+  0 < sz ->
+  records_sent bad (records_out_K2 lo hi sz tvs)
+  = WDone (map r_fo (stable_sort_by_time
+                       (filter (fun r => negb (bad (r_fo r)))
+                               (filter (rec_keep lo hi) (index_recs sz 0 tvs))))).
+Proof.
+  intro Hsz. rewrite (records_out_K2_correct lo hi sz tvs Hsz). unfold records_sent.
+  rewrite filter_map_comm. unfold spec_records, stable_sort_by_time.
+  rewrite (stable_sort_filter rec rec_tle rec_tle_total rec_tle_trans). reflexivity.
+Qed.
+
 (* ------------------------------------------------------------------ what the spec means *)
 Theorem spec_records_perm lo hi recs :
   Permutation (spec_records lo hi recs) (filter (rec_keep lo hi) recs).
